@@ -313,3 +313,60 @@ Fixpoint wf_atoms (e : ir) : bool :=
   | IAny l | IAll l => forallb wf_atoms l
   | INot e' => wf_atoms e'
   end.
+
+(* ------------------------------------------------------------------ *)
+(* What meson's cargo_parse means on EVERY version (pre-releases included), said in
+   terms of the section 11 order: each comparator is a list of bounds, a version is
+   accepted when it satisfies every bound and — if it is a pre-release — some
+   comparator of the requirement names a pre-release.  On release versions this
+   coincides with Cargo's rule above (theorem); on pre-release versions it does not
+   (Cargo additionally wants a comparator with the same major.minor.patch, and its
+   per-operator functions look at the pre-release only when the three numbers agree). *)
+Inductive bnd := BndLt | BndLe | BndGt | BndGe | BndEq.
+Definition sat_bnd (b : bnd) (c : comparison) : bool :=
+  match b, c with
+  | BndLt, Lt => true | BndLt, _ => false
+  | BndLe, Gt => false | BndLe, _ => true
+  | BndGt, Gt => true | BndGt, _ => false
+  | BndGe, Lt => false | BndGe, _ => true
+  | BndEq, Eq => true | BndEq, _ => false
+  end.
+Definition rel (a b c : N) : version := mkV a b c [].
+(* the release just above everything the last specified component allows *)
+Definition bump_last (c : comparator) : version :=
+  match cmin c, cpat c with
+  | None, _ => rel (cmaj c + 1) 0 0
+  | Some m, None => rel (cmaj c) (m + 1) 0
+  | Some m, Some p => rel (cmaj c) m (p + 1)
+  end.
+Definition tilde_upper (c : comparator) : version :=
+  match cmin c with
+  | None => rel (cmaj c + 1) 0 0
+  | Some m => rel (cmaj c) (m + 1) 0
+  end.
+Definition caret_upper (c : comparator) : version :=
+  if negb (cmaj c =? 0) then rel (cmaj c + 1) 0 0
+  else if negb (opt0 (cmin c) =? 0) then rel (cmaj c) (opt0 (cmin c) + 1) 0
+  else if negb (opt0 (cpat c) =? 0) then rel (cmaj c) (opt0 (cmin c)) (opt0 (cpat c) + 1)
+  else rel (cmaj c + 1) 0 0.
+Definition bounds (c : comparator) : list (bnd * version) :=
+  match c_op c with
+  | OExact => [(BndEq, cversion c)]
+  | OGt => [(BndGt, cversion c)]
+  | OGe => [(BndGe, cversion c)]
+  | OLt => [(BndLt, cversion c)]
+  | OLe => match cpre c with
+           | [] => [(BndLt, bump_last c)]
+           | _ => [(BndLe, cversion c)]
+           end
+  | OTilde | OWild => [(BndGe, cversion c); (BndLt, tilde_upper c)]
+  | OCaret => [(BndGe, cversion c); (BndLt, caret_upper c)]
+  end.
+Definition meson_comp (c : comparator) (v : version) : bool :=
+  forallb (fun bw => sat_bnd (fst bw) (prec_cmp v (snd bw))) (bounds c).
+Definition meson_matches (req : list comparator) (v : version) : bool :=
+  forallb (fun c => meson_comp c v) req && (is_release v || names_prerelease req).
+
+(* a comparator that spells out major.minor.patch *)
+Definition is_full (c : comparator) : bool :=
+  match cmin c, cpat c with Some _, Some _ => true | _, _ => false end.
